@@ -254,11 +254,27 @@ func (s *settings) GetBySwampName(swampName name.Name) setting.Setting {
 	defer s.mu.RUnlock()
 
 	if len(s.patterns) > 0 {
+		// several patterns can match (exact, swamp wildcard, realm wildcard, both): the most specific one
+		// wins, so the result does not depend on the iteration order of the map
+		var best setting.Setting
+		bestScore := -1
 		for _, pi := range s.patterns {
 			// compare if the pattern is math with the swamp name
 			if swampName.ComparePattern(pi.GetPattern()) {
-				return pi
+				score := 0
+				if pi.GetPattern().GetRealmName() != "*" {
+					score += 2
+				}
+				if pi.GetPattern().GetSwampName() != "*" {
+					score += 1
+				}
+				if score > bestScore {
+					best, bestScore = pi, score
+				}
 			}
+		}
+		if best != nil {
+			return best
 		}
 	}
 
